@@ -986,3 +986,9 @@ class GridWorld(DiscreteWorld):
             The ``width`` and ``height`` of the ``GridWorld``.
         """
         return self.width, self.height
+
+
+import os as _os  # noqa: E402
+if _os.environ.get("ECAGENT_VERIF_TRACE"):  # verification instrumentation, off by default
+    from ECAgent import _verif
+    _verif.install_environments(globals())
